@@ -264,8 +264,10 @@ func callPaths(r *lib.Run) {
 			rads := radiusCases(crng, d)
 			rad := rads[crng.Intn(len(rads))]
 			if !reportRadius(a, rad) {
-				r.Inconclusive("gossip case %d: radius report not acknowledged", i)
-				return
+				// the node only takes a radius from a ping whose sender is in its table (or a replacement list) at the
+				// moment the ping is processed; a peer that revalidation has just dropped is not: nothing to judge
+				r.Count("gossip_path_reports_not_acknowledged_peer_not_judged", 1)
+				continue
 			}
 			atReport[a.ID()] = entryObjects()[a.ID()]
 			if crng.Intn(3) == 0 {
